@@ -10,32 +10,22 @@ package types
 //@ smt (declare-fun depositScriptV0 (Opt_T_relayer_types_PublicKey Bytes Bytes) Bool)
 //@ smt (declare-fun depositScriptV1 (Opt_T_relayer_types_PublicKey Bytes Bytes Bytes Bytes) Bool)
 
+// The link to the uninterpreted predicates that VerifyDeposit reads stays an assumption (ensures-assumed); what the bodies
+// are PROVED to decide themselves is stated beside it.
+// Version 0: a 20-byte EVM address and a 34-byte output OP_0 PUSH32 <witness program> (secp256k1 key: P2WSH) or
+// OP_1 PUSH32 <x-only key> (schnorr key: P2TR); the witness program / tweaked key comparison is btcd code (not verified).
 //@ func VerifyDespositScriptV0
 //@ property C03 C17
-//@ trusted
-//@ ensures err == nil ==> depositScriptV0(pubkey, evmAddress, txout)
+//@ ensures-assumed spec: err == nil ==> depositScriptV0(pubkey, evmAddress, txout)
+//@ ensures shape: err == nil ==> len(evmAddress) == 20 && len(txout) == 34 && txout[1] == 32 && (txout[0] == 0 || txout[0] == 81)
 //@ modifies nothing
 
+// Version 1: exactly "P2WPKH of hash160(secp256k1 key)" followed by "OP_RETURN PUSH24 magic ++ evm" - everything the
+// function decides is proved (13 paths); only the identification with depositScriptV1 is assumed.
 //@ func VerifyDespositScriptV1
 //@ property C03 C17
-//@ trusted
-//@ ensures err == nil ==> depositScriptV1(pubkey, magicPrefix, evmAddress, txout0, txout1)
+//@ ensures-assumed spec: err == nil ==> depositScriptV1(pubkey, magicPrefix, evmAddress, txout0, txout1)
+//@ ensures p2wpkh: err == nil ==> len(txout0) == 22 && txout0[0] == 0 && txout0[1] == 20 && txout0[2:] == hash160(pubkey.GetSecp256K1())
+//@ ensures data_output: err == nil ==> len(txout1) == 26 && txout1[0] == 106 && txout1[1] == 24 && txout1[2:] == bcat(magicPrefix, evmAddress)
+//@ ensures lengths: err == nil ==> len(magicPrefix) == 4 && len(evmAddress) == 20
 //@ modifies nothing
-
-// ---- alternative, VERIFIED contract of VerifyDespositScriptV1 (kept as plain comments) -------------------------
-// Replacing the trusted block above by the following (non-trusted) block, govc discharges all five clauses of
-// VerifyDespositScriptV1 (13 paths, < 1 s): the version-1 verifier accepts exactly "P2WPKH of hash160(key)" +
-// "OP_RETURN PUSH24 magic evm". It is not the active contract because VerifyDeposit's `script` clause, restated with the
-// same defined predicate, then times out in the solvers (the two symbolic evaluations of pubkey.GetSecp256K1() - one in
-// the callee's contract, one in the caller's clause - are not matched up within the time limit).
-//
-//   smt (define-fun depositScriptV1x ((keyhash Bytes) (magic Bytes) (evm Bytes) (s0 Bytes) (s1 Bytes)) Bool (and (= (blen magic) 4) (= (blen evm) 20)
-//         (= (blen s0) 22) (= (bat s0 0) 0) (= (bat s0 1) 20) (= (bsub s0 2 22) keyhash)
-//         (= (blen s1) 26) (= (bat s1 0) 106) (= (bat s1 1) 24) (= (bsub s1 2 26) (bcat magic evm))))
-//   func VerifyDespositScriptV1
-//   requires pubkey != nil
-//   ensures p2wpkh: err == nil ==> len(txout0) == 22 && txout0[0] == 0 && txout0[1] == 20 && txout0[2:] == hash160(pubkey.GetSecp256K1())
-//   ensures data_output: err == nil ==> len(txout1) == 26 && txout1[0] == 106 && txout1[1] == 24 && txout1[2:] == bcat(magicPrefix, evmAddress)
-//   ensures lengths: err == nil ==> len(magicPrefix) == 4 && len(evmAddress) == 20
-//   ensures v1: err == nil ==> depositScriptV1x(hash160(pubkey.GetSecp256K1()), magicPrefix, evmAddress, txout0, txout1)
-//   modifies nothing
